@@ -5,6 +5,12 @@ the check runs with VERIF_REPO pointing at it, the worktree is removed.
 usage: seeded_check.py [--only SUBSTR] [--tier quick]"""
 import json, os, shutil, subprocess, sys, time
 VERIF = os.path.dirname(os.path.dirname(os.path.abspath(__file__)))
+# the checks run here are against broken copies: their evidence and replay files must not land in /verif
+SELFTEST_ROOT = "/var/tmp/vs-selftest-root"
+os.makedirs(SELFTEST_ROOT, exist_ok=True)
+if os.path.exists(os.path.join(VERIF, "known_findings.json")):
+    shutil.copy(os.path.join(VERIF, "known_findings.json"), SELFTEST_ROOT)
+os.environ["VERIF_ROOT_OVERRIDE"] = SELFTEST_ROOT
 def sh(cmd, env=None):
     r = subprocess.run(["bash", "-c", cmd], env=env, capture_output=True, text=True, errors="replace")
     return r.returncode, r.stdout + r.stderr
@@ -34,7 +40,7 @@ for sid in sorted(os.listdir(os.path.join(VERIF, "seeded"))):
     shutil.rmtree(env["VERIF_SCRATCH"], ignore_errors=True)
     sh(f"git -C /repo worktree remove --force {wt}"); shutil.rmtree(wt, ignore_errors=True)
     classes = [l[11:200] for l in out.splitlines() if l.startswith("violation:")]
-    if rc == 0 and meta.get("also_check"):
+    if rc != 1 and meta.get("also_check"):
         # the change breaks another claimed property than the one it was seeded for
         rc2, out2 = sh(f"{VERIF}/check {meta['also_check']} {tier}", env=dict(env, VERIF_REPO=wt2(sid, d)))
         meta["caught_by_check_of"] = meta["also_check"] if rc2 == 1 else None
